@@ -124,9 +124,15 @@ type config struct {
 var configs = []config{
 	{Name: "default-v0"},
 	{Name: "cidv1-rawleaves", V1: true},
-	{Name: "maxlinks2-hamt", MaxLinks: 2},
+	{Name: "hamtsize120-v0", HamtSize: 120},
 	{Name: "hamtsize64-chunk4-v1", V1: true, HamtSize: 64, Chunk: 4},
+	// corpus only: with MaxLinks set, a HAMT directory reloaded from its node misbehaves in
+	// ipld/unixfs/io (finding C19-3) in ways that have nothing to do with MFS; generated
+	// histories therefore exercise HAMT directories through the size threshold instead
+	{Name: "maxlinks2-hamt", MaxLinks: 2},
 }
+
+const genConfigs = 4 // configs[:genConfigs] are used for generated histories
 
 type fsys struct {
 	ctx     context.Context
@@ -745,15 +751,15 @@ func TestC19(t *testing.T) {
 	e := vh.Load(t)
 	st := vh.NewStats("operation sequences (corpus of 11 hand-written histories incl. the finding witnesses, then generated ones of " +
 		"length 4..30 over the names a,b,x,y,f,g at depth <= 3, aimed at existing paths by a shadow tree) run on a fresh MFS root in " +
-		"4 configurations (CIDv0, CIDv1+raw leaves, MaxLinks=2 HAMT, 64-byte HAMT threshold + 4-byte chunks); every history ends with " +
+		"4 configurations (CIDv0, CIDv1+raw leaves, 120-byte HAMT threshold, 64-byte HAMT threshold + 4-byte chunks + CIDv1; the corpus also with MaxLinks=2); every history ends with " +
 		"FlushPath(/) whose DAG is read back with the UnixFS readers; non-trivial = at least 6 operations, at least one successful mv " +
 		"and at least 3 successful structural operations; distinct by (config, ops)")
 	cs := vh.NewCases(e, "From V Require Import model.M_C19.\nOpen Scope Z_scope.", "case", "check_case", 100)
-	n := e.Pick(700, 20000)
+	n := e.Pick(700, 8000)
 	corp := corpus()
 	total := 0
 	for i := 0; i < n; i++ {
-		cfg := configs[i%len(configs)]
+		cfg := configs[i%genConfigs]
 		var script []*op
 		if i < len(corp)*len(configs) {
 			cfg = configs[i/len(corp)]
